@@ -297,7 +297,7 @@ static std::string render_mps(const LP &m, long style) {
 		if (sos && j == sos_a) { s += sos_tag + "'SOSORG'\n"; if (sos_dropped) s += " zdrop2 zfree 1\n"; }
 		bool want_int = ints && (j + (size_t)(style / 4)) % 3 == 0;
 		if (want_int != in_int) { s += std::string(" MARKER MARKER ") + (want_int ? "'INTORG'" : "'INTEND'") + "\n"; in_int = want_int; }
-		if (extra_free && j + 1 == m.cols.size()) for (auto &r : m.rows) { auto it = r.coef.find((int)j); if (it != r.coef.end() && it->second != 0) { s += " " + c.name + " " + r.name + " 1\n"; break; } }   // the same entry twice
+		if (style % 11 == 5 && j + 1 == m.cols.size()) for (auto &r : m.rows) { auto it = r.coef.find((int)j); if (it != r.coef.end() && it->second != 0) { s += " " + c.name + " " + r.name + " 1\n"; break; } }   // the same entry twice
 		if (c.obj != 0) { s += " " + c.name + " obj " + lit(c.obj, style) + "\n"; any = true; }
 		for (auto &r : m.rows) { auto it = r.coef.find((int)j); if (it != r.coef.end() && it->second != 0) { s += " " + c.name + " " + r.name + " " + lit(it->second, style + (long)j) + "\n"; any = true; } }
 		if (!any) s += " " + c.name + " obj 0\n"; }
